@@ -23,6 +23,34 @@ fcntl.lockf of ebpfcat.lock and every datagram; optionally one participant is
 killed at a scheduling point.  The lock file may not exist yet (creation
 window) or be left by an earlier session (counter 6/7: wraps within the run).
 
+Refused exchanges (both halves): besides the three exchanges that succeed
+the alphabet has five the CoE server model refuses - sdo_read of a missing
+sub-index (R) / of a missing object (N), sdo_write to a read-only entry as
+normal download (V) and expedited (W), read_object_entry of a missing
+sub-index (O).  The server answers with an SDO abort / an SDO information
+error, the library raises EtherCatError (inside the lock, for W after it left
+the lock), the user catches it and goes on.  The mail went out: the exchange
+has consumed its counter like any other, and the users that follow (the same
+one, other tasks, other processes) must continue the chain.
+
+Second LockFile objects (cross-process half): record locks belong to the
+(process, file) pair and closing ANY descriptor of the file drops all of
+them, so the lifetime of every LockFile object of a process matters.  A
+participant may get the lock of each of its tasks in a pickled message of
+its own (`how` = 'messages': every copy opens the file anew; the copy of a
+short task dies, by reference counting, when that task completes, i.e. while
+the longer exchange of another task is in flight), or own a spare LockFile
+(LockFile(...) a second time, a pickle round trip of the LockFile, of a
+ParallelMailboxLock) and drop it at a point the explorer chooses: before its
+first exchange, inside one (before its n-th datagram), between two
+exchanges, at the end.  On a tree whose LockFile has no destructor nothing
+is closed.
+
+Object lifetime is owned by the harness (see mc/simos.py, "Destructors"):
+the cyclic collector is off while an execution runs, every execution destroys
+what it leaves behind inside its own simulated OS, and a LockFile that
+outlives its in-process execution is an INTERNAL error.
+
 Both halves are judged on what the terminal sees in its write mailbox.  The
 lock comes from a factory (`LOCKS`); the oracle (`judge_events`,
 `judge_results`) only needs the terminal-side event list and the users'
@@ -34,6 +62,7 @@ import itertools
 import os
 import pickle
 import struct
+import weakref
 
 from mc import bussim, coe, core, explore, simos, vloop
 
@@ -45,19 +74,38 @@ from ebpfcat.ethercat import EtherCat, Terminal
 PROP = "C15"
 LEVEL = "model_checking"
 RULE = ("in-process: multisets of 2-3 task programs (1-2 exchanges each from "
-        "sdo_read / sdo_write / read_object_entry) x warm-up exchanges {0, "
+        "sdo_read / sdo_write / read_object_entry, plus configurations in "
+        "which at least one exchange is refused by the terminal: read of a "
+        "missing sub-index / object, normal and expedited write to a "
+        "read-only entry, object entry of a missing sub-index, followed by "
+        "exchanges of the same and of other users) x warm-up exchanges {0, "
         "6[, seeded]} x lock kind {MailboxLock, ParallelMailboxLock} x "
         "deviation-bounded (start of each task, delivery order of in-flight "
         "frames, response latency <= 2 polls); non-trivial = at least two "
         "users exchanged mail; distinct = distinct (configuration, choices).  "
         "cross-process: explicit-state search over all interleavings "
         "(complete, or bounded by preemptions) of the lock-file operations "
-        "and datagrams of 2-3 simulated processes x optional crash; a state "
+        "and datagrams of 2-3 simulated processes x optional crash x "
+        "refused exchanges x (participants owning a second LockFile object "
+        "on the lock file: per-task pickled lock copies that die when the "
+        "task completes, or a spare copy dropped at an explorer-chosen "
+        "point before / inside / between / after its exchanges); a state "
         "is non-trivial when a byte lock is held (or the lock file is still "
         "empty) while another participant is alive")
 
 OUT_OFF, OUT_SZ, IN_OFF, IN_SZ = 0x1000, 48, 0x1100, 48
 KINDS = "rwo"
+# exchanges the terminal refuses (the CoE server answers with an abort / an
+# SDO information error, the library raises EtherCatError): the mail went
+# out, so the exchange has consumed its counter like any other
+#   R sdo_read of a sub-index the object does not have   (raised inside the
+#   N sdo_read of an object that does not exist            lock)
+#   V sdo_write (6 bytes: normal download) to a read-only entry  (inside)
+#   W sdo_write (2 bytes: expedited) to a read-only entry (the library looks
+#     at the answer after it left the lock)
+#   O read_object_entry of a sub-index that does not exist (inside)
+FAILING = "RNVWO"
+RO_SUB, NO_SUB = 3, 9
 K = 2
 
 # lock factories: (EtherCat object, terminal number) -> lock
@@ -67,14 +115,20 @@ LOCKS = {
     # what ParallelEtherCat.get_mbx_lock hands out, used by several tasks of
     # ONE process (the lock file lives in a simulated OS, see lock_env)
     "ParallelMailboxLock": lambda ec, no: lock_mod.ParallelMailboxLock(
-        lock_mod.LockFile(X_LOCKFILE, 8, 16), no),
+        new_lock_file(), no),
     # defect model for known-finding attribution only (never enumerated as a
     # lock kind): the same plus mutual exclusion of the tasks of the process
     "ParallelMailboxLock+task-lock": lambda ec, no: task_locked(
-        lock_mod.LockFile(X_LOCKFILE, 8, 16), no),
+        new_lock_file(), no),
 }
 LOCK_KINDS = ("MailboxLock", "ParallelMailboxLock")
 KF_SAMEPROC = "C15-parallel-lock-same-process-tasks"
+
+
+def new_lock_file():
+    lf = lock_mod.LockFile(X_LOCKFILE, 8, 16)
+    lock_env.current.born.append(weakref.ref(lf))
+    return lf
 
 
 def task_locked(lock_file, no):
@@ -124,25 +178,39 @@ class LoggingRuntime(simos.DirectRuntime):
 
 
 class lock_env:
-    """environment a lock kind needs while an execution runs"""
+    """environment a lock kind needs while an execution runs.  The execution
+    owns its objects: the cyclic collector is off while it runs, and what it
+    leaves behind is destroyed on exit while its simulated OS and the seams
+    are still in place (a LockFile with a destructor closes its descriptor
+    in the World it was opened in, not in the next execution's)"""
+    current = None
 
     def __init__(self, lock_name):
         self.parallel = lock_name.startswith("Parallel")
         self.rt = None
+        self.born = []          # weak references to the LockFile objects
 
     def __enter__(self):
+        lock_env.current = self
         if self.parallel:
             self.seams = simos.Seams()
             self.seams.set(lock_mod, "os", simos.OsFacade())
             self.seams.set(lock_mod, "fcntl", simos.FcntlFacade())
             self.rt = LoggingRuntime(simos.World(["/run"]))
-            self.rt.__enter__()
+            self.rt.__enter__()         # collector off
+        else:
+            self.garbage = simos.own_garbage().__enter__()
         return self
 
     def __exit__(self, *a):
+        lock_env.current = None
         if self.parallel:
-            self.rt.__exit__(*a)
+            self.rt.__exit__(*a)        # collects, then uninstalls
             self.seams.restore()
+            if a[0] is None and any(r() is not None for r in self.born):
+                raise core.Internal("a LockFile outlived its execution")
+        else:
+            self.garbage.__exit__(*a)
 
 
 def user_index(u):
@@ -161,6 +229,10 @@ def entry_name(u, j):
     return f"user{u}-entry{j}"
 
 
+def missing_index(u):
+    return user_index(u) + 0x80
+
+
 def make_server(n_users):
     s = coe.SdoServer({(0x1000, 0): b"\x89\x13\0\0"})
     for u in range(n_users):
@@ -168,17 +240,25 @@ def make_server(n_users):
             s.objects[user_index(u), j] = initial(u, j)
             s.entry_meta[user_index(u), j] = (0x06, 16, 0x3f,
                                               entry_name(u, j))
+        s.objects[user_index(u), RO_SUB] = initial(u, RO_SUB)
+        s.readonly.add((user_index(u), RO_SUB))
     return s
 
 
+ANYBODY = "anybody"
+
+
 def message_user(msg):
-    """which user does a CoE mail (request or response) belong to"""
+    """which user does a CoE mail (request or response) belong to; ANYBODY
+    for an SDO information error response (it names no object)"""
     m = coe.mbx_parse(msg)
     if m.type != coe.COE or len(m.payload) < 5:
         return None
     service = struct.unpack_from("<H", m.payload)[0] >> 12
     if service in (coe.SDOREQ, coe.SDORES):
         index, = struct.unpack_from("<H", m.payload, 3)
+    elif service == coe.SDOINFO and m.payload[2] & 0x7f == 7:
+        return ANYBODY
     elif service == coe.SDOINFO and len(m.payload) >= 8:
         index, = struct.unpack_from("<H", m.payload, 6)
     else:
@@ -218,7 +298,7 @@ def judge_exchanges(events):
         elif e[0] == "out":
             if open_user is None:
                 return ("response without request", None, n)
-            if message_user(e[1]) != open_user[0]:
+            if message_user(e[1]) not in (open_user[0], ANYBODY):
                 return ("response for another user", open_user[0],
                         message_user(e[1]))
             open_user[1] = True
@@ -236,7 +316,13 @@ def judge_results(conf, results, server, cancelled=None):
             continue        # its own CancelledError is what it asked for
         if r is None or r[0] != "ok":
             return (f"user {u} completes its exchanges", "ok", r)
+        if server.objects[user_index(u), RO_SUB] != initial(u, RO_SUB):
+            return (f"user {u}: read-only entry keeps its value",
+                    initial(u, RO_SUB).hex(),
+                    server.objects[user_index(u), RO_SUB].hex())
         for j, (kind, got) in enumerate(zip(prog, r[1]), 1):
+            if kind in FAILING:
+                continue        # refused by the terminal: nothing to compare
             if kind == "r":
                 want = initial(u, j).hex()
             elif kind == "w":
@@ -273,16 +359,40 @@ def new_terminal(n_users, station):
     return t, server, events
 
 
-async def program(term, u, prog):
+async def program(term, u, prog, pause=None):
+    """the exchanges of one user; a refused exchange (FAILING) is caught, as
+    a user would, and the program goes on.  pause(j) is called between
+    exchange j and j + 1 (outside the lock)"""
     out = []
     for j, kind in enumerate(prog, 1):
+        if pause is not None and j > 1:
+            pause(j - 1)
         if kind == "r":
             out.append((await term.sdo_read(user_index(u), j)).hex())
         elif kind == "w":
             out.append(await term.sdo_write(written(u, j), user_index(u), j))
-        else:
+        elif kind == "o":
             oe = await term.read_object_entry(user_index(u), j)
             out.append([oe.name, oe.valueInfo, oe.bitLength])
+        else:
+            if kind == "R":
+                op = term.sdo_read(user_index(u), NO_SUB)
+            elif kind == "N":
+                op = term.sdo_read(missing_index(u), j)
+            elif kind == "V":
+                op = term.sdo_write(written(u, j) * 3, user_index(u), RO_SUB)
+            elif kind == "W":
+                op = term.sdo_write(written(u, j), user_index(u), RO_SUB)
+            elif kind == "O":
+                op = term.read_object_entry(user_index(u), NO_SUB)
+            else:
+                raise core.Internal(f"unknown exchange kind {kind!r}")
+            try:
+                r = await op
+            except ecmod.EtherCatError:
+                out.append(["refused"])
+            else:
+                out.append(["returned", repr(r)[:40]])
     return out
 
 
@@ -452,6 +562,29 @@ def configurations(ctx):
     return out
 
 
+def failing_configurations(ctx):
+    """configurations in which the terminal refuses at least one exchange,
+    followed / accompanied by exchanges of the same and of other users"""
+    F, G = [(f,) for f in FAILING], [(g,) for g in KINDS]
+    out = [(f, g) for f in F for g in G]
+    if ctx.quick:
+        out += [(("R", "r"), ("w",)), (("V", "o"), ("r",)),
+                (("O", "w"), ("o",)), (("N", "r"), ("R",)),
+                (("W", "r"), ("w",)), (("r", "R"), ("o", "V")),
+                (("R",), ("r",), ("w",)), (("V",), ("O",), ("o",))]
+        return out
+    two = [(f, g) for f in FAILING for g in KINDS] \
+        + [(g, f) for f in FAILING for g in KINDS]
+    out += [(p, q) for p in two for q in G + [("r", "w")]]
+    out += list(itertools.combinations_with_replacement(F, 2))
+    out += [(("r", "R"), ("o", "V")), (("N", "w"), ("W", "o")),
+            (("O", "O"), ("r", "N"))]
+    out += [(f, g, h) for f in F
+            for g, h in itertools.combinations_with_replacement(G, 2)]
+    out += [(("R",), ("V",), ("o",)), (("N",), ("O",), ("W",))]
+    return out
+
+
 def work(item, res):
     conf, lock_name, bound, cap = item
     bad = []
@@ -542,6 +675,21 @@ def selftest_oracle():
     assert judge_events([rq(0, 1), rq(1, 2), rs(0), f, rs(1), f])[0] == \
         "request written inside another user's exchange"
     assert judge_events([rq(0, 1), rs(0), rq(1, 2), f, rs(1), f])[0] == \
+        "request written inside another user's exchange"
+    # refused exchanges: the abort names the object, the SDO information
+    # error names nothing; both have consumed their counter
+    ab = ("out", coe.mbx_pack(coe.COE, coe.coe_header(coe.SDOREQ) +
+          struct.pack("<BHBI", 0x80, user_index(1), NO_SUB,
+                      coe.AB_NO_SUBINDEX), counter=1))
+    ie = ("out", coe.mbx_pack(coe.COE, coe.coe_header(coe.SDOINFO) +
+          struct.pack("<BxHI", 7, 0, coe.AB_NO_SUBINDEX), counter=1))
+    assert message_user(ab[1]) == 1 and message_user(ie[1]) == ANYBODY
+    assert judge_events([rq(1, 1), ab, f, rq(0, 2), rs(0), f]) is None
+    assert judge_events([rq(1, 1), ie, f, rq(0, 2), rs(0), f]) is None
+    assert judge_events([rq(0, 1), ab, f])[0] == "response for another user"
+    assert judge_events([rq(1, 1), ab, f, rq(0, 1), rs(0), f])[0] == \
+        "counter repeated"
+    assert judge_events([rq(1, 1), ie, rq(0, 2), f, rs(0), f])[0] == \
         "request written inside another user's exchange"
 
 
@@ -653,11 +801,17 @@ class BusQueue:
 
     def __init__(self, shared):
         self.shared = shared
+        self.count = 0          # datagrams of this participant so far
+        self.at = None          # before which datagram to call `drop`
+        self.drop = None
 
     def put_nowait(self, item):
         cmd, out, idx, pos, offset, future = item
         rt = simos.current()
         pid = rt.pid()
+        n, self.count = self.count, self.count + 1
+        if n == self.at:
+            self.drop()
         try:
             data = rt.syscall(
                 "bus", (cmd.name, pos, offset, bytes(out)),
@@ -740,33 +894,77 @@ def x_tasks(coros, failed):
 
 
 def x_body(rt):
+    """one participant.  Python objects die where their last reference is
+    dropped (simos keeps the cyclic collector off): a task's Terminal and
+    lock are referenced by its coroutine only and die when it completes; a
+    spare LockFile dies at the point the explorer chose; everything else
+    when this function returns, i.e. before the process exits"""
     prm = rt.params
     mine = prm["plan"][rt.pid()]
     sh = prm["shared"]
+    how = prm["how"][rt.pid()]
+    spare_kind = prm["spare"][rt.pid()]
+    spare, point = [], [None]
 
     def failed(e):
         return ["raise", type(e).__name__, _where(e), str(e)[:80]]
+
+    def drop():
+        del spare[:]
+
+    def pause(j):
+        if point[0] == ["after", j]:
+            drop()
+    coros = []
     try:
         ec = ecat_mod.ParallelEtherCat(X_IF)
         ec.terminal_addr_range = X_RANGE
-        ec.send_queue = BusQueue(sh)
-        if prm["how"][rt.pid()] == "unpickle":
+        queue = ec.send_queue = BusQueue(sh)
+        if how == "unpickle":
             # a spawned child receives the pickled LockFile: __setstate__
             ec.mbx_lock_file = pickle.loads(prm["blob"])
         else:
             # the statement in ParallelEtherCat.run that creates it
             ec.mbx_lock_file = lock_mod.LockFile(
                 f'/run/ebpf/{ec.addr[0]}', *ec.terminal_addr_range)
-        coros = []
         for t, kinds, user in mine:
             term = Terminal(ec)
             term.position = sh.terms[t].station
             # as Terminal.initialize / gentle_initialize do
             term.mbx_lock = ec.get_mbx_lock(term.position)
+            if how == "messages":
+                # every task got its lock in a pickled message of its own
+                # (what LockFile is picklable for): each copy opens the
+                # lock file anew
+                term.mbx_lock = pickle.loads(pickle.dumps(term.mbx_lock))
             term.mbx_out_off, term.mbx_out_sz = OUT_OFF, OUT_SZ
             term.mbx_in_off, term.mbx_in_sz = IN_OFF, IN_SZ
-            coros.append(program(term, user, kinds))
-    except Exception as e:
+            coros.append(program(term, user, kinds, pause))
+        del term
+        if spare_kind:
+            # a second LockFile object of this process on the same file, made
+            # the ways the library allows, and dropped at one of the points
+            if spare_kind == "init":
+                spare.append(lock_mod.LockFile(
+                    f'/run/ebpf/{ec.addr[0]}', *ec.terminal_addr_range))
+            elif spare_kind == "pickle":
+                spare.append(pickle.loads(pickle.dumps(ec.mbx_lock_file)))
+            elif spare_kind == "lock":
+                spare.append(pickle.loads(pickle.dumps(
+                    ec.get_mbx_lock(sh.terms[mine[0][0]].station))))
+            else:
+                raise simos.SimBug(f"spare kind {spare_kind!r}")
+            points = prm["drops"]
+            point[0] = points[rt.choose("drop", list(range(len(points))))]
+            if point[0] == ["pre"]:
+                drop()
+            elif point[0][0] == "dg":
+                queue.at, queue.drop = point[0][1], drop
+    except BaseException as e:
+        for c in coros:         # not started: nothing to unwind
+            c.close()
+        if not isinstance(e, Exception):
+            raise               # killed / abandoned
         return [failed(e)] * len(mine)
     if len(coros) == 1:
         try:
@@ -923,10 +1121,17 @@ def x_describe(run):
 
 
 def x_space(name, progs, how, initial, latency, preempt, crashes, seed,
-            cap=None):
+            cap=None, spare=None, drops=None):
     """progs[u]: exchanges of participant u (see x_plan); how[u]: 'init' |
-    'unpickle'; initial: None (no lock file yet) or the counter an earlier
-    session left in the file; latency: polls before a terminal answers"""
+    'unpickle' | 'messages' (created as 'init', but every task's lock is a
+    pickled copy with a LockFile of its own); initial: None (no lock file
+    yet) or the counter an earlier session left in the file; latency: polls
+    before a terminal answers; spare[u]: None or how participant u gets a
+    second LockFile object ('init' | 'pickle' | 'lock'); drops: the points
+    at which it may drop it (one is chosen by the explorer): ['pre'] before
+    its first exchange, ['dg', n] inside an exchange, before its n-th
+    datagram, ['after', j] between exchange j and j + 1, ['end'] when it is
+    done"""
     size = X_RANGE[1] - X_RANGE[0]
     plan = x_plan(progs)
     n_users = sum(len(m) for m in plan)
@@ -945,9 +1150,13 @@ def x_space(name, progs, how, initial, latency, preempt, crashes, seed,
         for st in stations:
             content[st - X_RANGE[0]] = initial
         content = bytes(content)
+    spare = list(spare) if spare else [None] * len(plan)
+    drops = [list(d) for d in drops or [["end"]]]
     params = dict(progs=progs, how=list(how), initial=initial,
                   latency=latency, preempt=preempt, crashes=crashes,
                   seed=seed, station=station, stations=stations)
+    if any(spare):
+        params.update(spare=spare, drops=drops)
     lf = lock_mod.LockFile.__new__(lock_mod.LockFile)
     lf.filename, lf.minimum, lf.maximum = X_LOCKFILE, *X_RANGE
     blob = pickle.dumps(lf)
@@ -962,7 +1171,8 @@ def x_space(name, progs, how, initial, latency, preempt, crashes, seed,
         sh = Shared(n_users, stations, latency)
         return XRun(w, [x_body] * len(plan),
                     params=dict(shared=sh, plan=plan, how=list(how),
-                                blob=blob, content=content,
+                                blob=blob, content=content, spare=spare,
+                                drops=drops,
                                 yielding={u for u, m in enumerate(plan)
                                           if len(m) > 1}))
     return simos.Space(name, factory, x_monitor, preempt=preempt,
@@ -972,21 +1182,34 @@ def x_space(name, progs, how, initial, latency, preempt, crashes, seed,
 
 def x_space_from_params(name, p):
     return x_space(name, p["progs"], p["how"], p["initial"], p["latency"],
-                   p["preempt"], p["crashes"], p["seed"])
+                   p["preempt"], p["crashes"], p["seed"],
+                   spare=p.get("spare"), drops=p.get("drops"))
 
 
 def x_spaces(ctx):
     s = ctx.seed
-    I, U = "init", "unpickle"
+    I, U, M = "init", "unpickle", "messages"
+    inside = [["dg", 0], ["dg", 2], ["dg", 4]]
     if ctx.quick:
         sp = [x_space("x2-fresh-1ex", ["r", "w"], [I, I], None, 0, None, 0,
                       s),
               x_space("x2-existing7-1ex", ["o", "r"], [I, U], 7, 1, None, 0,
                       s),
               # process 0 talks to two terminals from two tasks (the second
-              # exchange runs inside the first), process 1 to one of them
-              x_space("x2-two-terminals", [[[1, "r"], [0, "w"]], [[1, "o"]]],
-                      [I, I], None, 0, None, 0, s)]
+              # exchange runs inside the first), process 1 to one of them;
+              # the tasks of process 0 got their locks in two messages: the
+              # copy of the second task dies inside the first one's exchange
+              x_space("x2-two-terminals-messages",
+                      [[[1, "r"], [0, "w"]], [[1, "o"]]],
+                      [M, I], None, 0, None, 0, s),
+              # process 0 owns a second LockFile and drops it somewhere
+              x_space("x2-spare-dropped", ["r", "w"], [I, U], 6, 0, None, 0,
+                      s, spare=["pickle", None],
+                      drops=[["pre"]] + inside[1:] + [["end"]]),
+              # the terminal refuses exchanges; others follow
+              x_space("x2-refused", ["Rr", "w"], [I, U], 7, 0, None, 0, s),
+              x_space("x2-refused-both", ["V", "O"], [I, I], 5, 0, None, 0,
+                      s)]
     else:
         sp = [x_space("x2-fresh-2ex", ["rw", "or"], [I, I], None, 1, None,
                       0, s),
@@ -1005,7 +1228,36 @@ def x_spaces(ctx):
                       None, 0, s),
               x_space("x3-two-terminals",
                       [[[1, "r"], [0, "w"]], [[1, "o"]], [[0, "r"]]],
-                      [I, I, I], None, 0, None, 0, s)]
+                      [I, I, I], None, 0, None, 0, s),
+              # second LockFile objects in one process
+              x_space("x2-two-terminals-messages",
+                      [[[1, "r"], [0, "w"]], [[1, "o"]]],
+                      [M, I], None, 0, None, 0, s),
+              x_space("x3-two-terminals-messages",
+                      [[[1, "o"], [0, "r"]], [[1, "w"]], [[0, "o"]]],
+                      [M, U, M], 7, 0, None, 0, s),
+              x_space("x2-spare-dropped-2ex", ["rw", "o"], [I, I], 6, 0,
+                      None, 0, s, spare=["init", None],
+                      drops=[["pre"]] + inside + [["after", 1], ["dg", 7],
+                                                  ["end"]]),
+              x_space("x2-spare-lock-dropped", ["o", "r"], [U, I], None, 1,
+                      None, 0, s, spare=["lock", None],
+                      drops=[["pre"], ["dg", 1], ["dg", 3], ["dg", 5],
+                             ["end"]]),
+              x_space("x3-spares-dropped", ["w", "r", "o"], [I, U, I], 7, 0,
+                      None, 0, s, spare=["pickle", "init", None],
+                      drops=[["pre"], ["dg", 2], ["end"]]),
+              # exchanges the terminal refuses
+              x_space("x2-refused-2ex", ["Rw", "Or"], [I, U], 6, 0, None, 0,
+                      s),
+              x_space("x2-refused-fresh-2ex", ["Vr", "Nw"], [I, I], None, 1,
+                      None, 0, s),
+              x_space("x2-refused-after-lock", ["Wr", "Wo"], [U, I], 7, 0,
+                      None, 0, s),
+              x_space("x3-refused", ["R", "w", "O"], [I, I, U], 7, 0, None,
+                      0, s),
+              x_space("x2-refused-crash1", ["Rr", "V"], [I, I], 5, 0, None,
+                      1, s)]
     only = os.environ.get("C15_SPACES")       # development aid
     if only:
         sp = [x for x in sp if x.name in only.split(",")]
@@ -1064,6 +1316,8 @@ def run_cross(ctx, res):
                            if sp.params["initial"] is None else
                            f"exists, counter {sp.params['initial']}"),
                 obtained=sp.params["how"], latency=sp.params["latency"],
+                second_lockfile=sp.params.get("spare"),
+                dropped_at=sp.params.get("drops"),
                 preemptions=("unbounded (all interleavings)"
                              if sp.preempt is None else sp.preempt),
                 crashes=sp.crashes, completed=per[sp.name]["complete"])
@@ -1084,10 +1338,14 @@ def run(ctx):
     cap = 4000 if ctx.quick else 60000
     items = []
     for lock_name in LOCK_KINDS:
+        warms = (0, 6) if ctx.quick else \
+            sorted({0, 6, 1 + (3 + ctx.seed) % 5})
         for tasks in configurations(ctx):
-            warms = (0, 6) if ctx.quick else \
-                sorted({0, 6, 1 + (3 + ctx.seed) % 5})
             for warm in warms:
+                b = bound if len(tasks) == 2 or ctx.quick else bound - 1
+                items.append(((tasks, warm), lock_name, b, cap))
+        for tasks in failing_configurations(ctx):
+            for warm in warms[:2]:
                 b = bound if len(tasks) == 2 or ctx.quick else bound - 1
                 items.append(((tasks, warm), lock_name, b, cap))
         # a task that has not completed may be cancelled (one more kind of
@@ -1110,7 +1368,8 @@ def run(ctx):
                                       key=lambda i: (i % 31, i))]
     if os.environ.get("C15_PART") == "cross":     # development aid
         items = items[:1]
-    res = core.pmap(ctx, work, items, chunk=1)
+    with simos.frozen_heap():   # cheap per-execution collection (workers too)
+        res = core.pmap(ctx, work, items, chunk=1)
     res.cov["inprocess_executions"] = res.cov.get("evaluations", 0)
     res.cov["inprocess_frames"] = res.cov.get("transitions", 0)
     res.cov["inprocess_distinct_nontrivial"] = len(res.nontrivial)
@@ -1175,7 +1434,32 @@ def run(ctx):
         "took its lock, and completes before task 1 goes on); all "
         "interleavings with the other processes are explored",
         "3 tasks: bound reduced by one in thorough; quick: 3 tasks do one "
-        "exchange each"]
+        "exchange each",
+        "refused exchanges (R N V W O, see the module docstring): the CoE "
+        "server model answers with an abort / an SDO information error; the "
+        "user catches the EtherCatError and goes on.  The refused exchange "
+        "sent a mail and has consumed its counter: the counter chain and "
+        "the exclusion are judged as for any other exchange.  What the "
+        "library returns or raises for a refused exchange is not judged "
+        "(only that the read-only entry keeps its value); an SDO "
+        "information error response names no object and is accepted as the "
+        "response of whichever exchange is open",
+        "second LockFile objects: a participant's tasks may each hold a "
+        "pickled copy of their lock (own descriptor), referenced by the "
+        "task only, or the participant holds one spare LockFile (second "
+        "LockFile(...), pickle round trip of the LockFile or of a "
+        "ParallelMailboxLock) and drops its only reference at one point "
+        "chosen by the explorer from the space's list (before the first "
+        "exchange, before its n-th datagram, between two exchanges, at the "
+        "end).  Objects die by reference counting at the step that drops "
+        "them, with whatever scheduling points their destructor has; "
+        "objects in reference cycles die when the execution is over "
+        "(CPython gives no earlier guarantee).  Closing a descriptor drops "
+        "all record locks of the process on that file (checked against the "
+        "real OS by simos.conformance)",
+        "the cyclic garbage collector is off while an execution runs; each "
+        "execution's garbage is destroyed before its simulated OS is "
+        "uninstalled"]
     return res
 
 
